@@ -176,3 +176,114 @@ func suiteConvertPlainTtx(R *runner, r *rng) {
 		os.Remove(path)
 	}
 }
+
+// ---- styled teletext sources (Model/ConvTtx.v) ----
+
+// a row: start box twice, runs separated by colour / size codes (also one in front of the first run, sometimes two codes in a
+// row), spaces at the ends of runs (trimmed by the reader), end box
+func ttxStyledRow(r *rng) []byte {
+	words := []string{"hello", "world", "a-b", "x  y", "ok", "1+1=2", "(music)", "What?", "No!", "<i>", "a & b", "-->", "50%", "fox"}
+	cells := []byte{0x0b, 0x0b}
+	code := func() {
+		if r.chance(3, 4) {
+			cells = append(cells, byte(r.intn(8)))
+		} else {
+			cells = append(cells, byte(0xc+r.intn(4)))
+		}
+	}
+	if r.chance(1, 3) {
+		code()
+	}
+	for k := 1 + r.intn(4); k > 0 && len(cells) < 30; k-- {
+		txt := words[r.intn(len(words))]
+		if r.chance(1, 4) {
+			txt = " " + txt
+		}
+		if r.chance(1, 4) {
+			txt += strings.Repeat(" ", 1+r.intn(2))
+		}
+		if len(cells)+len(txt) > 36 {
+			break
+		}
+		cells = append(cells, txt...)
+		if k > 1 {
+			code()
+			if r.chance(1, 5) {
+				code()
+			}
+		}
+	}
+	return append(cells, 0x0a)
+}
+
+func suiteConvertStyledTtx(R *runner, r *rng) {
+	R.rule("styled teletext sources: 1..4 cues (the first at 0, millisecond grid, touching or separated), 1..3 rows of 1..4 runs separated by colour and size codes (also in front of the first run, doubled, repeating the colour in force), spaces at the ends of runs, text that decodes to itself under national option 0 incl. markup-like text; delivered list built by the harness's teletext encoder, muxed with astits into a .ts file, astisub.OpenFile, each of the five writers: destination bytes vs the model's convert_ttx_F (Model/ConvTtx.v) on the delivered list")
+	N := 60
+	if R.tier == "thorough" {
+		N = 800
+	}
+	dir := filepath.Join(buildDir, fmt.Sprintf("styledttx-%d", os.Getpid()))
+	os.MkdirAll(dir, 0o755)
+	defer os.RemoveAll(dir)
+	hdr := func() []byte { return headerPacket(8, 88, ttxHeaderOpts{subtitle: true}) }
+	for c := 0; c < N; c++ {
+		var ds []tmDelivery
+		var t int64
+		var human []string
+		n := 1 + r.intn(4)
+		for i := 0; i < n; i++ {
+			d := append([]byte{0x10}, hdr()...)
+			for k, nr := 0, 1+r.intn(3); k < nr; k++ {
+				cells := ttxStyledRow(r)
+				if c == 0 && i == 0 && k == 0 {
+					// the row of the Coq example (Proofs/ConvTtxExamples.v): words separated by attribute cells only
+					cells = []byte("\x0b\x0bHello\x01red\x07 white  \x0a")
+				}
+				human = append(human, fmt.Sprintf("%q", cells))
+				d = append(d, rowPacket(8, k+1, cells)...)
+			}
+			ds = append(ds, tmDelivery{T: t, Data: d})
+			t += int64(r.intn(3000))
+			if i+1 == n || r.chance(2, 3) {
+				ds = append(ds, tmDelivery{T: t, Data: append([]byte{0x10}, hdr()...)})
+				t += int64(1 + r.intn(3000))
+			}
+		}
+		ts, err := tmTS(uint16(256+r.intn(20)), ds)
+		if err != nil {
+			R.note("muxer error: " + err.Error())
+			continue
+		}
+		path := filepath.Join(dir, fmt.Sprintf("c%d.ts", c))
+		if err := os.WriteFile(path, ts, 0o644); err != nil {
+			fatal("write %s: %v", path, err)
+		}
+		in := encDeliveries(&enc{}, ds).String()
+		for _, dst := range plainCodecs {
+			s2, err := astisub.OpenFile(path)
+			if err != nil {
+				continue
+			}
+			var out bytes.Buffer
+			o := &obs{Suite: "convttx", Group: "styled.ts->" + dst.name, Input: (&enc{}).n(dst.code).raw(in).String(), NT: true,
+				Human: map[string]interface{}{"destination": dst.name, "rows": human}}
+			R.count("styled.ts->" + dst.name)
+			var werr error
+			p := safely(func() { werr = dst.write(s2, &out) })
+			switch {
+			case p != "":
+				o.Impl, o.Oracle, o.Sig = "2", fmt.Sprintf("styled ts -> %s panicked: %s", dst.name, p), "convttx-panic"
+			case werr != nil:
+				o.Impl = "1"
+				R.count("styled.ts->" + dst.name + ".writer_error")
+			default:
+				o.Impl = (&enc{}).n(0).bytes(out.Bytes()).String()
+				if ls := strings.Split(out.String(), "\n"); c == 0 && dst.name == "srt" && len(ls) > 2 {
+					R.note(fmt.Sprintf("observation (inside C07's inter-run white-space tolerance): page row %q through OpenFile + WriteToSRT gives the text line %q (the reader trims run texts, the writer puts runs side by side)", "\x0b\x0bHello\x01red\x07 white  \x0a", ls[2]))
+				}
+			}
+			R.add(o)
+		}
+		os.Remove(path)
+	}
+}
